@@ -14,6 +14,7 @@ def run(ctx):
     from rules import C01
     progq = db.program('qmail-queue')
     H = C01.QueueHooks({})
+    H.ADDR = None
     from qv.lib import macro_const as _mc
     H.precise = frozenset(C01.counter_vars(progq.fn('main', 'qmail-queue.c'), _mc(db, 'qmail-queue.c', 'ADDR')))
     eng = Engine(db, progq, H)
